@@ -414,6 +414,9 @@ func RunRegistryScenario(r *verifsim.Run, sut RegSUT) {
 			}
 			plans = append(plans, &regPlan{k: k, full: true})
 		case DiskArchive:
+			if op.Note == "file-by-file" {
+				r.Probe("archive-file-by-file-path-enumerated")
+			}
 			for _, kind := range []DiskFaultKind{DiskErr, DiskCrash} {
 				add(DiskFault{Kind: kind, Effect: EffectNone})
 				add(DiskFault{Kind: kind, Effect: EffectEmpty})
